@@ -169,6 +169,10 @@ Definition has_private_component (path : string) : bool := existsb is_private (s
 Definition paths_ok (w : world) : list string :=
   map fst (List.filter (fun pm => negb (has_private_component (fst pm)) &&
                                   negb (match resolve_path w (fst pm) with Some o => obj_eqb o (OMod (fst pm)) | None => false end)) w).
+(* ... and over EVERY documented module of the program (loaded or not): a module that was never loaded is not reachable along its path *)
+Definition paths_ok_all (P : program) (w : world) : list string :=
+  map fst (List.filter (fun pm => negb (has_private_component (fst pm)) &&
+                                  negb (match resolve_path w (fst pm) with Some o => obj_eqb o (OMod (fst pm)) | None => false end)) P).
 (* C20, part 2: a name defined in module `home` is that very object in package `pkg` *)
 Definition name_ok (w : world) (pkg home name : string) : bool :=
   match wfind w pkg with
